@@ -115,3 +115,173 @@ class PermutingExecutors:
                                         as_completed=as_completed, wait=wait, Future=_Future,
                                         ALL_COMPLETED="ALL_COMPLETED", FIRST_COMPLETED="FIRST_COMPLETED")
         self.module = types.SimpleNamespace(futures=futures)
+
+
+# ======================================================================
+# C19: fake timer + cooperative line-level scheduler for ProgressBar
+# ======================================================================
+import sys as _sys
+import threading as _threading
+import time as _time
+
+
+class FakeTimer:
+    """stand-in for threading.Timer owned by the harness: never fires by itself"""
+    created = []
+
+    def __init__(self, interval, function, args=None, kwargs=None):
+        self.interval = interval
+        self.function = function
+        self.started = False
+        self.cancelled = False
+        self.fired = False
+        self.daemon = False
+        FakeTimer.created.append(self)
+
+    def start(self):
+        self.started = True
+
+    def cancel(self):
+        self.cancelled = True
+
+    def is_alive(self):
+        return self.live()
+
+    def join(self, timeout=None):
+        return None
+
+    def live(self):
+        return self.started and not self.cancelled and not self.fired
+
+    def fire(self):
+        """run the callback as the timer thread would (in the calling thread)"""
+        self.fired = True
+        return self.function()
+
+    @classmethod
+    def reset(cls):
+        cls.created = []
+
+    @classmethod
+    def live_timers(cls):
+        return [t for t in cls.created if t.live()]
+
+
+class Scheduler:
+    """runs named threads, stopping each before every line of the target code objects; the controller picks which
+    thread may execute its next line.  A thread that does not reach its next stop within `grace` seconds is presumed
+    blocked (on a lock held by a paused thread) and is left alone until it shows up again."""
+
+    def __init__(self, targets, schedule, grace=0.03, hard_timeout=20.0):
+        self.targets = set(targets)
+        self.schedule = list(schedule)
+        self.cv = _threading.Condition()
+        self.turn = None
+        self.waiting = {}
+        self.done = set()
+        self.trace = []
+        self.grace = grace
+        self.hard_timeout = hard_timeout
+        self.errors = {}
+
+    def _tracer(self, name):
+        def local(frame, event, arg):
+            if event == "line" and frame.f_code in self.targets:
+                self._yield(name, frame.f_lineno)
+            return local
+
+        def glob(frame, event, arg):
+            if frame.f_code in self.targets:
+                return local
+            return None
+        return glob
+
+    def _yield(self, name, line):
+        with self.cv:
+            self.waiting[name] = line
+            self.cv.notify_all()
+            t0 = _time.time()
+            while self.turn != name:
+                self.cv.wait(timeout=0.5)
+                if _time.time() - t0 > self.hard_timeout:
+                    raise RuntimeError("scheduler hard timeout in thread " + name)
+            self.turn = None
+            del self.waiting[name]
+            self.trace.append((name, line))
+            self.cv.notify_all()
+
+    def spawn(self, name, fn):
+        def body():
+            _sys.settrace(self._tracer(name))
+            try:
+                fn()
+            except BaseException as exc:   # recorded, judged by the caller
+                self.errors[name] = exc
+            finally:
+                _sys.settrace(None)
+                with self.cv:
+                    self.done.add(name)
+                    self.cv.notify_all()
+        t = _threading.Thread(target=body, name="sched-" + name, daemon=True)
+        t.start()
+        return t
+
+    def drive(self, names):
+        """returns the list of (runnable names, picked name) decisions"""
+        choices = []
+        t_start = _time.time()
+        while True:
+            with self.cv:
+                # wait until every live thread is at a stop, or presumed blocked
+                t0 = _time.time()
+                while True:
+                    pending = [n for n in names if n not in self.waiting and n not in self.done]
+                    if not pending:
+                        break
+                    if self.waiting and _time.time() - t0 > self.grace:
+                        break          # the others are presumed blocked on a lock
+                    self.cv.wait(timeout=self.grace / 3)
+                    if _time.time() - t_start > self.hard_timeout:
+                        raise RuntimeError("scheduler hard timeout (controller)")
+                runnable = sorted(self.waiting)
+                if not runnable:
+                    if all(n in self.done for n in names):
+                        break
+                    if _time.time() - t_start > self.hard_timeout:
+                        raise RuntimeError("scheduler hard timeout: threads neither waiting nor done")
+                    continue
+                if self.schedule:
+                    pick = self.schedule.pop(0)
+                    if pick not in runnable:
+                        pick = runnable[0]
+                else:
+                    pick = runnable[0]
+                choices.append((tuple(runnable), pick))
+                self.turn = pick
+                self.cv.notify_all()
+                while self.turn is not None:
+                    self.cv.wait(timeout=0.5)
+                    if _time.time() - t_start > self.hard_timeout:
+                        raise RuntimeError("scheduler hard timeout waiting for a step")
+        return choices
+
+
+def explore(scenario, max_schedules=2000):
+    """stateless DFS over schedules. scenario(prefix) -> (choices, verdict). Returns list of (schedule, verdict)."""
+    results = []
+    stack = [[]]
+    seen = set()
+    while stack and len(results) < max_schedules:
+        pref = stack.pop()
+        choices, verdict = scenario(pref)
+        key = tuple(p for _, p in choices)
+        results.append((list(key), verdict))
+        for i in range(len(pref), len(choices)):
+            runnable, pick = choices[i]
+            for alt in runnable:
+                if alt != pick:
+                    newp = tuple([p for _, p in choices[:i]] + [alt])
+                    if newp not in seen:
+                        seen.add(newp)
+                        stack.append(list(newp))
+    return results, not stack
